@@ -94,6 +94,137 @@ class ClassInfo:
         return f"<Class {self.qualname}>"
 
 
+def _names_loaded(node, name):
+    return sum(1 for x in ast.walk(node) if isinstance(x, ast.Name) and x.id == name)
+
+
+def _in_nested_scope(fn, name):
+    """is `name` mentioned inside a nested def / lambda / class of fn (a closure could observe the binding)"""
+    for n in ast.walk(fn):
+        if n is not fn and isinstance(n, (ast.FunctionDef, ast.AsyncFunctionDef, ast.Lambda, ast.ClassDef)):
+            if any(isinstance(x, ast.Name) and x.id == name for x in ast.walk(n)):
+                return True
+        if isinstance(n, (ast.Global, ast.Nonlocal)) and name in n.names:
+            return True
+    return False
+
+
+_MIRROR = {ast.Lt: ast.Gt, ast.Gt: ast.Lt, ast.LtE: ast.GtE, ast.GtE: ast.LtE, ast.Eq: ast.Eq, ast.NotEq: ast.NotEq}
+
+
+def _constant_like(e):
+    if isinstance(e, ast.Constant):
+        return True
+    if isinstance(e, ast.UnaryOp) and isinstance(e.op, ast.USub) and isinstance(e.operand, ast.Constant):
+        return True
+    last = e.attr if isinstance(e, ast.Attribute) else (e.id if isinstance(e, ast.Name) else None)
+    return last is not None and last.isupper() and len(last) > 1 and all(isinstance(x, (ast.Attribute, ast.Name)) for x in ast.walk(e) if isinstance(x, ast.expr) and not isinstance(x, ast.expr_context))
+
+
+def _canon_exprs(tree):
+    """`CONST <op> x` -> `x <mirrored op> CONST` (one comparison, constant-like left operand, plain right operand: both are pure reads);
+    `T = T <op> K` with K a literal -> `T <op>= K` (with a literal operand T is a number / str / bytes: rebinding and in-place update coincide)"""
+    for n in ast.walk(tree):
+        if isinstance(n, ast.Compare) and len(n.ops) == 1 and type(n.ops[0]) in _MIRROR and _constant_like(n.left) and not _constant_like(n.comparators[0]) \
+                and not any(isinstance(x, (ast.Call, ast.Await, ast.NamedExpr, ast.Yield, ast.YieldFrom)) for x in ast.walk(n.comparators[0])):
+            n.left, n.comparators[0] = n.comparators[0], n.left
+            n.ops[0] = _MIRROR[type(n.ops[0])]()
+
+
+def canonicalize(tree):
+    """Behaviour-preserving normalisation of a parsed module, applied before any rule looks at it, so that the rules see ONE spelling of
+    constructs that maintainers move between freely.  Each step is an identity of Python's semantics (no call is added, removed or
+    reordered; positions of the surviving nodes are kept):
+      * `if not C: A else: B`            -> `if C: B else: A`
+      * `t = E; return t` (t used nowhere else in the function) -> `return E`
+      * `if A and B: X` without else -> `if A: (if B: X)`
+      * `if (x := E) ...:` -> `x = E; if x ...:` when the walrus is the first thing the test evaluates
+      * `x = E1 if C else E2` as a statement (one Name / attribute target)          -> `if C: x = E1 else: x = E2`
+    """
+    def fix_blocks(owner_fn, node):
+        for fld in ("body", "orelse", "finalbody"):
+            blk = getattr(node, fld, None)
+            if isinstance(blk, list) and blk and isinstance(blk[0], ast.stmt):
+                setattr(node, fld, fix_block(owner_fn, blk))
+        if isinstance(node, ast.Try):
+            for h in node.handlers:
+                h.body = fix_block(owner_fn, h.body)
+        if hasattr(ast, "Match") and isinstance(node, ast.Match):
+            for c in node.cases:
+                c.body = fix_block(owner_fn, c.body)
+
+    def fix_block(owner_fn, blk):
+        out = []
+        for st in blk:
+            fn_here = st if isinstance(st, (ast.FunctionDef, ast.AsyncFunctionDef)) else owner_fn
+            if isinstance(st, (ast.FunctionDef, ast.AsyncFunctionDef, ast.ClassDef)):
+                fix_blocks(fn_here if not isinstance(st, ast.ClassDef) else None, st)
+                out.append(st)
+                continue
+            fix_blocks(owner_fn, st)
+            if isinstance(st, ast.If):
+                # if (x := E) <rest>: ..  ->  x = E; if x <rest>: ..   (the walrus is the first thing the test evaluates)
+                holder, field = None, None
+                cur, fld, par = st.test, "test", st
+                for _ in range(6):
+                    if isinstance(cur, ast.NamedExpr):
+                        holder, field = par, fld
+                        break
+                    if isinstance(cur, ast.Compare):
+                        par, fld, cur = cur, "left", cur.left
+                    elif isinstance(cur, ast.BoolOp):
+                        par, fld, cur = cur, 0, cur.values[0]
+                    elif isinstance(cur, ast.UnaryOp) and isinstance(cur.op, ast.Not):
+                        par, fld, cur = cur, "operand", cur.operand
+                    else:
+                        break
+                if holder is not None and isinstance(cur.target, ast.Name):
+                    pre = ast.copy_location(ast.Assign(targets=[ast.Name(id=cur.target.id, ctx=ast.Store())], value=cur.value, type_comment=None), cur)
+                    repl = ast.copy_location(ast.Name(id=cur.target.id, ctx=ast.Load()), cur)
+                    if field == 0:
+                        holder.values[0] = repl
+                    else:
+                        setattr(holder, field, repl)
+                    out.append(pre)
+                # if not C: A else: B  ->  if C: B else: A
+                if st.orelse and isinstance(st.test, ast.UnaryOp) and isinstance(st.test.op, ast.Not):
+                    st.test = st.test.operand
+                    st.body, st.orelse = st.orelse, st.body
+                # if A and B: X (no else)  ->  if A: (if B: X)      [one test per condition: the CFG rules see each of them]
+                if not st.orelse and isinstance(st.test, ast.BoolOp) and isinstance(st.test.op, ast.And) and len(st.test.values) >= 2:
+                    vals = st.test.values
+                    inner_body = st.body
+                    for v in reversed(vals[1:]):
+                        inner_body = [ast.copy_location(ast.If(test=v, body=inner_body, orelse=[]), v)]
+                    st.test = vals[0]
+                    st.body = inner_body
+            if isinstance(st, ast.Assign) and len(st.targets) == 1 and isinstance(st.value, ast.IfExp) and \
+                    (isinstance(st.targets[0], ast.Name) or (isinstance(st.targets[0], ast.Attribute) and isinstance(st.targets[0].value, ast.Name))):
+                import copy
+                t2 = copy.deepcopy(st.targets[0])
+                a1 = ast.copy_location(ast.Assign(targets=[st.targets[0]], value=st.value.body, type_comment=None), st.value.body)
+                a2 = ast.copy_location(ast.Assign(targets=[t2], value=st.value.orelse, type_comment=None), st.value.orelse)
+                st = ast.copy_location(ast.If(test=st.value.test, body=[a1], orelse=[a2]), st)
+                fix_blocks(owner_fn, st)
+            if isinstance(st, ast.Assign) and len(st.targets) == 1 and isinstance(st.value, ast.BinOp) and isinstance(st.value.right, (ast.Constant, ast.JoinedStr)) and \
+                    (isinstance(st.targets[0], ast.Name) or (isinstance(st.targets[0], ast.Attribute) and isinstance(st.targets[0].value, ast.Name))) and \
+                    ast.dump(st.value.left).replace("Load()", "X") == ast.dump(st.targets[0]).replace("Store()", "X"):
+                st = ast.copy_location(ast.AugAssign(target=st.targets[0], op=st.value.op, value=st.value.right), st)
+            if isinstance(st, ast.Return) and isinstance(st.value, ast.Name) and out and owner_fn is not None:
+                prev = out[-1]
+                nm = st.value.id
+                if isinstance(prev, ast.Assign) and len(prev.targets) == 1 and isinstance(prev.targets[0], ast.Name) and prev.targets[0].id == nm \
+                        and _names_loaded(prev.value, nm) == 0 and not _in_nested_scope(owner_fn, nm):
+                    out.pop()
+                    st = ast.copy_location(ast.Return(value=prev.value), st)
+            out.append(st)
+        return out
+    fix_blocks(None, tree)
+    _canon_exprs(tree)
+    ast.fix_missing_locations(tree)
+    return tree
+
+
 class Module:
     def __init__(self, name, path, relpath, source):
         self.name = name
@@ -101,11 +232,32 @@ class Module:
         self.relpath = relpath
         self.source = source
         self.tree = ast.parse(source, filename=path)
+        if os.environ.get("VERIF_NO_CANON") != "1":
+            canonicalize(self.tree)
         self.classes = {}
         self.funcs = {}
         self.consts = {}
         self.imports = {}  # local name -> dotted target ("autobahn.x.Y" or "struct")
         self._scan()
+        try:
+            from .tiny import NODE_MODULE, NODE_CLASS
+            for n_ in ast.walk(self.tree):
+                if isinstance(n_, ast.stmt):
+                    NODE_MODULE[id(n_)] = self
+            cdefs = {c_.name: c_ for c_ in ast.walk(self.tree) if isinstance(c_, ast.ClassDef)}
+            for c_ in cdefs.values():
+                chain, todo = [], [c_]
+                while todo and len(chain) < 8:
+                    k_ = todo.pop(0)
+                    if k_ in chain:
+                        continue
+                    chain.append(k_)
+                    todo += [cdefs[b_.id] for b_ in k_.bases if isinstance(b_, ast.Name) and b_.id in cdefs]
+                for n_ in ast.walk(c_):
+                    if isinstance(n_, ast.stmt) and n_ is not c_:
+                        NODE_CLASS.setdefault(id(n_), chain)
+        except ImportError:
+            pass
 
     def _scan(self):
         def scan_body(body):
@@ -118,6 +270,10 @@ class Module:
                     for t in st.targets:
                         if isinstance(t, ast.Name):
                             self.consts[t.id] = st.value
+                        elif isinstance(t, ast.Tuple) and isinstance(st.value, ast.Tuple) and len(t.elts) == len(st.value.elts):
+                            for t2, v2 in zip(t.elts, st.value.elts):   # A, B = "a", "b"
+                                if isinstance(t2, ast.Name):
+                                    self.consts[t2.id] = v2
                 elif isinstance(st, ast.AnnAssign) and isinstance(st.target, ast.Name) and st.value is not None:
                     self.consts[st.target.id] = st.value
                 elif isinstance(st, ast.Import):
